@@ -111,8 +111,13 @@ def mk_flow(case, d, log):
         yield from rows
     rows = rows_dec(case['rows'])
     if case['loader']:
-        src = DF.load(({'resources': [{'name': 'r', 'path': 'r.csv', 'schema': {'fields': [{'name': 'a', 'type': 'integer'}, {'name': 'v', 'type': 'any'}]}}]},
-                       [copy.deepcopy(rows)]))
+        # a re-iterable file source read by load(): a package dumped beforehand
+        pk = os.path.join(d + '_src')
+        if not os.path.exists(os.path.join(pk, 'datapackage.json')):
+            with quiet():
+                Flow(Src([{'name': 'r', 'fields': [{'name': 'a', 'type': 'integer'}, {'name': 'w', 'type': 'integer'}],
+                           'rows': [{'a': j, 'w': 2 * j} for j in range(len(rows))]}]), DF.dump_to_path(pk)).process()
+        src = DF.load(os.path.join(pk, 'datapackage.json'))
     else:
         src = Src([{'name': 'r', 'fields': [{'name': 'a', 'type': 'integer'}, {'name': 'v', 'type': 'any'}], 'rows': rows}])
     n1, n2 = case.get('names', ['one', 'two'])
@@ -162,6 +167,7 @@ def run_impl(case):
         except Exception as e:
             runs.append({'error': '%s: %s' % (type(e).__name__, str(e)[:200])})
     shutil.rmtree(d, ignore_errors=True)
+    shutil.rmtree(d + '_src', ignore_errors=True)
     return {'runs': runs}
 
 
